@@ -34,6 +34,10 @@ pub struct TreeSpec {
     pub include_variant: bool,
     /// directories whose own names look like sources (conf.txtpp.d/, sub/tpl.txtpp/) hold sources too
     pub dirlike: bool,
+    /// a directory whose name is the OUTPUT name of a sibling source (n/ next to n.txtpp, site.v3/ next to
+    /// site.txtpp.v3): naming it as an input means the directory. Only by-name inputs of the directories are
+    /// run on this variant (building the sibling source itself cannot succeed: its output path is occupied).
+    pub outdir: bool,
 }
 
 impl TreeSpec {
@@ -50,6 +54,13 @@ impl TreeSpec {
                     v.push(join(d, s));
                 }
             }
+        }
+        if self.outdir {
+            v.push("n.txtpp".to_string());
+            v.push("n/a.txt.txtpp".to_string());
+            v.push("site.txtpp.v3".to_string());
+            v.push("site.v3/b.txtpp.txt".to_string());
+            v.push("site.v3/inner/c.txtpp".to_string());
         }
         if self.dirlike {
             v.push("conf.txtpp.d/a.txt.txtpp".to_string());
@@ -94,11 +105,11 @@ impl TreeSpec {
         }
     }
     pub fn to_json(&self) -> Value {
-        json!({"masks": self.masks, "dotted": self.dotted, "include_variant": self.include_variant, "dirlike": self.dirlike})
+        json!({"masks": self.masks, "dotted": self.dotted, "include_variant": self.include_variant, "dirlike": self.dirlike, "outdir": self.outdir})
     }
     pub fn from_json(v: &Value) -> TreeSpec {
         let m: Vec<u8> = v["masks"].as_array().unwrap().iter().map(|x| x.as_u64().unwrap() as u8).collect();
-        TreeSpec { masks: [m[0], m[1], m[2]], dotted: v["dotted"].as_bool().unwrap_or(false), include_variant: v["include_variant"].as_bool().unwrap_or(false), dirlike: v["dirlike"].as_bool().unwrap_or(false) }
+        TreeSpec { masks: [m[0], m[1], m[2]], dotted: v["dotted"].as_bool().unwrap_or(false), include_variant: v["include_variant"].as_bool().unwrap_or(false), dirlike: v["dirlike"].as_bool().unwrap_or(false), outdir: v["outdir"].as_bool().unwrap_or(false) }
     }
 }
 
@@ -200,7 +211,7 @@ fn check_case(rep: &Report, env: &Env, spec: &TreeSpec, inputs: &[String], recur
     let want = expected_set(spec, &inputs_plain, recursive, mode);
     let src_tree = spec.tree();
     let all_sources = spec.sources();
-    let desc = format!("tree masks={:?}{}{} inputs={:?} recursive={} mode={:?} base={}", spec.masks, if spec.dotted { " +dotted" } else if spec.dirlike { " +source-like directory names" } else { "" }, if spec.includes() { " +include" } else { "" }, inputs, recursive, mode, if rel { "relative" } else { "absolute" });
+    let desc = format!("tree masks={:?}{}{} inputs={:?} recursive={} mode={:?} base={}", spec.masks, if spec.dotted { " +dotted" } else if spec.dirlike { " +source-like directory names" } else if spec.outdir { " +directories named like a sibling's output" } else { "" }, if spec.includes() { " +include" } else { "" }, inputs, recursive, mode, if rel { "relative" } else { "absolute" });
     let viol = |sig: &str, msg: String| rep.violate(sig, format!("{desc} :: {msg}"), rj(spec, inputs, recursive, mode, rel));
     match mode {
         Mode::Build | Mode::InMemoryBuild => {
@@ -358,21 +369,21 @@ pub fn run_c11(tier: &str) -> i32 {
     let quick_masks: [[u8; 3]; 8] = [[0, 0, 0], [7, 0, 0], [1, 2, 4], [7, 7, 7], [0, 7, 0], [0, 0, 7], [5, 2, 0], [2, 5, 3]];
     if thorough {
         for m in 0..512u32 {
-            specs.push(TreeSpec { masks: [(m & 7) as u8, (m >> 3 & 7) as u8, (m >> 6 & 7) as u8], dotted: false, include_variant: false, dirlike: false });
+            specs.push(TreeSpec { masks: [(m & 7) as u8, (m >> 3 & 7) as u8, (m >> 6 & 7) as u8], dotted: false, include_variant: false, dirlike: false, outdir: false });
         }
     } else {
         for m in quick_masks {
-            specs.push(TreeSpec { masks: m, dotted: false, include_variant: false, dirlike: false });
+            specs.push(TreeSpec { masks: m, dotted: false, include_variant: false, dirlike: false, outdir: false });
         }
     }
     for m in quick_masks {
-        specs.push(TreeSpec { masks: m, dotted: true, include_variant: false, dirlike: false });
+        specs.push(TreeSpec { masks: m, dotted: true, include_variant: false, dirlike: false, outdir: false });
     }
     for m in [[7, 7, 7], [1, 2, 0], [7, 2, 4]] {
-        specs.push(TreeSpec { masks: m, dotted: false, include_variant: true, dirlike: false });
+        specs.push(TreeSpec { masks: m, dotted: false, include_variant: true, dirlike: false, outdir: false });
     }
     for m in [[0, 0, 0], [7, 7, 7], [1, 2, 4]] {
-        specs.push(TreeSpec { masks: m, dotted: false, include_variant: false, dirlike: true });
+        specs.push(TreeSpec { masks: m, dotted: false, include_variant: false, dirlike: true, outdir: false });
     }
     let lists = input_lists(2);
     let lists1 = input_lists(1);
@@ -417,6 +428,25 @@ pub fn run_c11(tier: &str) -> i32 {
             }
         }
     });
+    // directories named like the output of a sibling source
+    {
+        let env = Env { scratch: Scratch::new() };
+        for m in [[0u8, 0, 0], [3, 2, 0]] {
+            let spec = TreeSpec { masks: m, dotted: false, include_variant: false, dirlike: false, outdir: true };
+            for l in [vec!["n"], vec!["n/"], vec!["./n"], vec!["site.v3"], vec!["n", "site.v3"], vec!["site.v3/", "n/a.txt"], vec!["ABS:n"], vec!["sub/../site.v3"]] {
+                let l: Vec<String> = l.into_iter().map(String::from).collect();
+                for rec in [false, true] {
+                    for mode in [Mode::Build, Mode::InMemoryBuild] {
+                        for rel in [false, true] {
+                            check_case(&rep, &env, &spec, &l, rec, &mode, rel);
+                            rep.tr(1);
+                            rep.add("cases_with_directories_named_like_an_output", 1);
+                        }
+                    }
+                }
+            }
+        }
+    }
     if rep.get("cases_expecting_error") == 0 || rep.get("cases_expecting_a_set") == 0 {
         rep.machinery("vacuous enumeration".into());
     }
